@@ -381,6 +381,10 @@ func (rr *runRec) buildDec(bi int, side string, ord int, d DecSpec) decor.Decora
 		x = e
 	case "elapsed":
 		x = decor.Elapsed(decor.ET_STYLE_MMSS, wc)
+	case "avgeta":
+		x = decor.AverageETA(decor.ET_STYLE_GO, wc)
+	case "avgspeed":
+		x = decor.AverageSpeed(0, "%.1f", wc)
 	default: // plain
 		x = decor.Any(func(s decor.Statistics) string {
 			slowDown(d.Slow)
@@ -593,7 +597,7 @@ func (rr *runRec) doOp(client, idx int, op Op) {
 	var b *mpb.Bar
 	needsBar := true
 	switch op.K {
-	case "add", "write", "refresh", "rw", "cancel", "shutdown", "release", "waitcycles":
+	case "add", "write", "refresh", "rw", "cancel", "shutdown", "release", "waitcycles", "pwait":
 		needsBar = false
 	}
 	if needsBar {
@@ -669,6 +673,8 @@ func (rr *runRec) doOp(client, idx int, op Op) {
 		res = fmt.Sprintf("%d,%v,%v,%v,%d", b.Current(), b.Completed(), b.Aborted(), b.IsRunning(), b.ID())
 	case "barwait":
 		b.Wait()
+	case "pwait":
+		rr.p.Wait() // several goroutines may wait on one container
 	case "busy":
 		// keeps the bar's goroutine occupied until the scenario's cancellation landed (bounded)
 		// (a slow callback inside the bar's goroutine: when it returns, a pending
